@@ -105,9 +105,33 @@ def sensitivity(argv):
     return 0 if missed == 0 else 1
 
 
+def known(argv):
+    """Every listed known finding must still reproduce from its committed replay file on the current tree: a finding
+    that no longer does is either repaired (then it belongs under 'fixed') or its replay is stale (refresh it with
+    VERIF_WRITE_KF_REPLAYS=1)."""
+    from . import runner
+    kf = runner.load_known()
+    bad = 0
+    for f in kf.get("findings", []):
+        path = os.path.join(runner.VERIF, f["replay"])
+        try:
+            pid, hit, same, r = runner.replay_file(path, quiet=True)
+        except Exception as e:  # noqa
+            print(f"  {f['id']}: replay failed to run: {type(e).__name__}: {e}")
+            bad += 1
+            continue
+        print(f"  {f['id']}: {'reproduced' if hit else 'NOT reproduced'} (digest {'same' if same else 'differs'})")
+        if not hit:
+            bad += 1
+    print(f"known findings: {len(kf.get('findings', [])) - bad}/{len(kf.get('findings', []))} reproduce from their committed replay files")
+    return 0 if not bad else 2
+
+
 def main(argv):
     if argv and argv[0] == "sensitivity":
         return sensitivity(argv[1:])
+    if argv and argv[0] == "known":
+        return known(argv[1:])
     if not argv or argv[0] != "determinism":
         print("usage: --selftest determinism [n] [--emit] | --selftest sensitivity [name-filter ...]")
         return 2
